@@ -337,4 +337,162 @@ def accepted (t : Table) (ops : List Op) : List Op :=
 
 def St.init (maxOrder : Nat) : St := ⟨Cells.empty, { maxOrder := maxOrder }⟩
 
+/-! ### edits that re-create cells: `Table.write`, `merge_cells`, `add_row` / `add_column` at the end
+
+As repaired (fixes/C15-borders-survive-cell-recreation.patch).  The per-cell `CellBorder` objects are
+a cache of the stroke layers: `extract_strokes` fills them once (`@cache`) and `set_cell_border`
+keeps them up to date.
+
+* `Table.write` replaces the `Cell` object; the new cell is given the `_border` object of the
+  cell it replaces (`writeCell`).
+* `merge_cells` lets `_set_merge` hand every cell of the table a fresh `CellBorder` (with the
+  merged-side flags of the new layout), `add_row` / `add_column` create fresh cells; both then
+  call `_NumbersModel.refresh_strokes`, which drops the table's `extract_strokes` cache entry
+  (`stale`).  The next use of the borders — `Cell.border`, or `Table.set_cell_border` before it
+  records its stroke — runs `extract_strokes` again *onto the cells as they are*
+  (`extractOnto`): a slot takes a run only if it is empty or the run is more recent, so
+  cells that kept their borders are left alone and fresh cells are filled.
+The stored layers are not touched by any of these edits.
+-/
+
+/-- `extract_strokes` run on cells that may already carry borders. -/
+def extractOnto (t : Table) (cs : Cells) (sc : Sidecar) : Cells :=
+  let cs := extractFamily t cs .top sc.top
+  let cs := extractFamily t cs .left sc.left
+  let cs := extractFamily t cs .right sc.right
+  extractFamily t cs .bottom sc.bottom
+
+/-- a table of an open document: shape, borders and layers, and whether the `extract_strokes`
+    cache entry has been dropped. -/
+structure Doc where
+  t : Table
+  st : St
+  stale : Bool := false
+
+/-- `self._model.extract_strokes(table_id)` through the cache. -/
+def Doc.ensure (d : Doc) : Doc :=
+  if d.stale then { d with st := ⟨extractOnto d.t d.st.cells d.st.sc, d.st.sc⟩, stale := false } else d
+
+/-- a step of an editing history.  `merge rs cs dh dw` is `merge_cells` of the rectangle
+    `(rs, cs) .. (rs + dh, cs + dw)`; `addRows n` / `addCols n` are `add_row(n)` / `add_column(n)`
+    without a start index (appended). -/
+inductive Step
+  | stroke (op : Op)
+  | write (row col : Nat)
+  | merge (rs cs dh dw : Nat)
+  | addRows (n : Nat)
+  | addCols (n : Nat)
+  deriving DecidableEq, Repr
+
+/-- the merge map after `add_anchor` / `add_reference`, as `_set_merge` and `isinstance(cell,
+    MergedCell)` see it. -/
+def mergeKind (kind : Nat → Nat → Kind) (rs cs re ce : Nat) : Nat → Nat → Kind := fun r c =>
+  if rs ≤ r ∧ r ≤ re ∧ cs ≤ c ∧ c ≤ ce then
+    if r = rs ∧ c = cs then .anchor (re - rs + 1) (ce - cs + 1) else .ref rs cs re ce
+  else kind r c
+
+/-- `Table.write` on the borders: the new cell object gets a fresh `CellBorder` from `_set_merge`
+    and then the `_border` of the cell it replaces. -/
+def writeCell (cs : Cells) (row col : Nat) : Cells :=
+  let border := cs row col
+  let cs := cs.upd row col (fun _ => {})
+  cs.upd row col (fun _ => border)
+
+/-- the `_set_merge` sweep of `merge_cells`: a fresh `CellBorder` for every cell of the table. -/
+def sweepCells (t : Table) (cs : Cells) : Cells :=
+  fun r c => if r < t.nrows ∧ c < t.ncols then {} else cs r c
+
+/-- the cells `add_row(n)` / `add_column(n)` append: fresh ones at the new positions. -/
+def growCells (t t' : Table) (cs : Cells) : Cells :=
+  fun r c => if (r < t'.nrows ∧ c < t'.ncols) ∧ ¬ (r < t.nrows ∧ c < t.ncols) then {} else cs r c
+
+/-- the table shape after a step (strokes and writes leave it alone). -/
+def stepTable (t : Table) : Step → Table
+  | .merge rs cs dh dw => { t with kind := mergeKind t.kind rs cs (rs + dh) (cs + dw) }
+  | .addRows n => { t with nrows := t.nrows + n }
+  | .addCols n => { t with ncols := t.ncols + n }
+  | _ => t
+
+/-- one API call.  IndexError: `_validate_cell_coords` (stroke, write), `self._data[row][col]` for a
+    placeholder position outside the table (merge_cells; the anchor cell itself is not indexed). -/
+def Doc.step (d : Doc) : Step → PyM Doc
+  | .stroke op =>
+    if op.row ≥ d.t.nrows ∨ op.col ≥ d.t.ncols then .error .IndexError
+    else if refused d.t op.sd op.row op.col then .ok d          -- warns and returns before `extract_strokes`
+    else
+      let d := d.ensure
+      .ok { d with st := applyOp d.t d.st op }
+  | .write row col =>
+    if row ≥ d.t.nrows ∨ col ≥ d.t.ncols then .error .IndexError
+    else .ok { d with st := ⟨writeCell d.st.cells row col, d.st.sc⟩ }
+  | .merge rs cs dh dw =>
+    if dh + dw > 0 ∧ (rs + dh ≥ d.t.nrows ∨ cs + dw ≥ d.t.ncols) then .error .IndexError
+    else
+      let t' := stepTable d.t (.merge rs cs dh dw)
+      .ok { t := t', st := ⟨sweepCells t' d.st.cells, d.st.sc⟩, stale := true }
+  | .addRows n =>
+    let t' := stepTable d.t (.addRows n)
+    .ok { t := t', st := ⟨growCells d.t t' d.st.cells, d.st.sc⟩, stale := true }
+  | .addCols n =>
+    let t' := stepTable d.t (.addCols n)
+    .ok { t := t', st := ⟨growCells d.t t' d.st.cells, d.st.sc⟩, stale := true }
+
+def Doc.run : Doc → List Step → PyM Doc
+  | d, [] => .ok d
+  | d, s :: ss => do
+    let d' ← d.step s
+    Doc.run d' ss
+
+/-- `table.cell(row, col).border.<side>` (the property runs `extract_strokes` first). -/
+def Doc.view (d : Doc) (row col : Nat) (sd : Side) : Option Nat := Border.view d.t d.ensure.st.cells row col sd
+
+/-- what a reopened copy of the saved document reports. -/
+def Doc.savedView (d : Doc) (row col : Nat) (sd : Side) : Option Nat := Border.view d.t (extract d.t d.st.sc) row col sd
+
+/-- the pinned commit: `write` leaves the fresh `CellBorder` in place, `merge_cells` and
+    `add_row` / `add_column` do not drop the cache entry. -/
+def Doc.stepPinned (d : Doc) : Step → PyM Doc
+  | .write row col =>
+    if row ≥ d.t.nrows ∨ col ≥ d.t.ncols then .error .IndexError
+    else .ok { d with st := ⟨d.st.cells.upd row col (fun _ => {}), d.st.sc⟩ }
+  | .merge rs cs dh dw =>
+    if dh + dw > 0 ∧ (rs + dh ≥ d.t.nrows ∨ cs + dw ≥ d.t.ncols) then .error .IndexError
+    else
+      let t' := stepTable d.t (.merge rs cs dh dw)
+      .ok { d with t := t', st := ⟨sweepCells t' d.st.cells, d.st.sc⟩ }
+  | .addRows n =>
+    let t' := stepTable d.t (.addRows n)
+    .ok { d with t := t', st := ⟨growCells d.t t' d.st.cells, d.st.sc⟩ }
+  | .addCols n =>
+    let t' := stepTable d.t (.addCols n)
+    .ok { d with t := t', st := ⟨growCells d.t t' d.st.cells, d.st.sc⟩ }
+  | s => d.step s
+
+def Doc.runPinned : Doc → List Step → PyM Doc
+  | d, [] => .ok d
+  | d, s :: ss => do
+    let d' ← d.stepPinned s
+    Doc.runPinned d' ss
+
+/-- a new document. -/
+def Doc.init (t : Table) (maxOrder : Nat) : Doc := ⟨t, St.init maxOrder, false⟩
+
+/-! specification for editing histories: the edge map of the strokes the API accepted (the refusal
+    test looks at the table as it is when the stroke is drawn); writes, merges and appended rows /
+    columns do not draw anything. -/
+
+abbrev EdgeMap := Edge → Option Nat
+
+def stepEdges (t : Table) (em : EdgeMap) : Step → EdgeMap
+  | .stroke op =>
+    if op.row < t.nrows ∧ op.col < t.ncols ∧ refused t op.sd op.row op.col = false then
+      fun e => if op.covers e then some op.stroke else em e
+    else em
+  | _ => em
+
+/-- table shape and edge map after a history. -/
+def histSpec : Table → EdgeMap → List Step → Table × EdgeMap
+  | t, em, [] => (t, em)
+  | t, em, s :: ss => histSpec (stepTable t s) (stepEdges t em s) ss
+
 end NumbersModel.Border
